@@ -750,7 +750,7 @@ loop:
 			// other load on the machine gets more time.
 			waited += g.timeout
 			cpu := localfsGroupCPU(cmd.Process.Pid)
-			if cpu-lastCPU < g.timeout*6/10 && waited < 10*g.timeout {
+			if cpu-lastCPU < g.timeout*3/10 && waited < 10*g.timeout {
 				lastCPU = cpu
 				timer.Reset(g.timeout)
 				continue
